@@ -12,11 +12,12 @@
 EXTENDS GuidGrammar, Json, IOUtils, TLC
 
 Rec == ndJsonDeserialize(IOEnv.TRACE)
-VARIABLE l
-Init == l \in 1..Len(Rec)
-Next == UNCHANGED l
+\* TLC does not cache Rec: the record of a line is carried in the state so the file is parsed once
+VARIABLES l, rec
+Init == LET R == Rec IN \E i \in 1..Len(R) : l = i /\ rec = R[i]
+Next == UNCHANGED <<l, rec>>
 
-Report(what, detail) == PrintT(<<"MISMATCH", ToJson([line |-> l, id |-> Rec[l].id, what |-> what, detail |-> detail])>>)
+Report(what, detail) == PrintT(<<"MISMATCH", ToJson([line |-> l, id |-> rec.id, what |-> what, detail |-> detail])>>)
 
 PathOk(s, p) ==
   LET want == GuidOk(s) IN
@@ -25,6 +26,6 @@ PathOk(s, p) ==
                 [path |-> p.p, dev |-> IF p.ok /\ UuidForms(s) THEN "uuid_crate_forms" ELSE "none"]))
   /\ (~p.ok \/ p.same \/ Report("guid-value-changed", [path |-> p.p, dev |-> "none"]))
 
-LineOk == LET r == Rec[l] IN IF r.ev = "Guid" THEN \A j \in 1..Len(r.paths) : PathOk(r.s, r.paths[j]) ELSE TRUE
+LineOk == LET r == rec IN IF r.ev = "Guid" THEN \A j \in 1..Len(r.paths) : PathOk(r.s, r.paths[j]) ELSE TRUE
 Inv == LineOk \/ TRUE
 =============================================================================
